@@ -39,9 +39,9 @@ pub fn part(check: impl Check + 'static, quick: u64, thorough: u64) -> Part {
 
 pub fn parts_for(id: &str) -> Option<Vec<Part>> {
     Some(match id {
-        "C04" => vec![part(c04_udp::UdpDemux, 20_000, 600_000)],
+        "C04" => vec![part(c04_udp::UdpDemux, 200_000, 6_000_000)],
         "C05" => vec![part(c05_link::LinkLayer, 20_000, 600_000)],
-        "C06" => vec![part(c06_arp::ArpResolution, 40_000, 1_000_000)],
+        "C06" => vec![part(c06_arp::ArpResolution, 400_000, 10_000_000)],
         "C07" => vec![part(c07_message::MessageOps, 400_000, 8_000_000)],
         "C09" => vec![
             part(c09_iptable::TableHistories, 400_000, 6_000_000),
@@ -51,17 +51,17 @@ pub fn parts_for(id: &str) -> Option<Vec<Part>> {
         "C10" => vec![part(c10_fragment::Fragmentation, 150_000, 3_000_000)],
         "C11" => vec![part(c11_reassembly::ReassemblyHistories, 100_000, 2_000_000)],
         "C01" => vec![part(tcb_checks::ReliableStream, 40_000, 3_000_000)],
-        "C02" => vec![part(c02_sockets::StreamSockets { multi_thread: false }, 20_000, 600_000), part(c02_sockets::StreamSockets { multi_thread: true }, 640, 20_000), part(c02_dgram::DatagramSockets, 10_000, 400_000)],
+        "C02" => vec![part(c02_sockets::StreamSockets { multi_thread: false }, 60_000, 2_000_000), part(c02_sockets::StreamSockets { multi_thread: true }, 640, 20_000), part(c02_dgram::DatagramSockets, 100_000, 3_000_000)],
         "C03" => vec![part(tcb_checks::OpenClose, 40_000, 3_000_000)],
         "C12" => vec![part(c12_modcmp::ModCmpLaws, 200_000, 4_000_000), part(tcb_checks::IsnIndependence, 20_000, 1_500_000)],
-        "C16" => vec![part(c16_routing::Routing, 10_000, 600_000)],
+        "C16" => vec![part(c16_routing::Routing, 300_000, 10_000_000)],
         "C17" => vec![part(tcb_checks::HostileSegments, 60_000, 4_000_000)],
-        "C13" => vec![part(c13_barrier::BarrierAndStatus { mt: false }, 6_000, 300_000), part(c13_barrier::BarrierAndStatus { mt: true }, 480, 16_000)],
-        "C14" => vec![part(codecs::DecodersNoPanic, 1_000_000, 20_000_000), part(ndl::NdlNoPanic, 100_000, 3_000_000), part(c14_frames::MalformedFrames, 16_000, 600_000)],
-        "C19" => vec![part(ndl::NdlRoundTrip, 40_000, 2_000_000), part(ndl::NdlRun, 2_000, 100_000)],
-        "C15" => vec![part(c15_ipgen::IpGenHistories, 300_000, 6_000_000), part(c15_dhcp::DhcpLeases, 5_000, 200_000)],
-        "C18" => vec![part(codecs::Codecs, 400_000, 8_000_000), part(codecs::CorruptionRejected, 400_000, 8_000_000), part(c18_wire::WireChecksums, 6_000, 300_000)],
-        "C20" => vec![part(c20_dns::DnsResolution, 20_000, 600_000)],
+        "C13" => vec![part(c13_barrier::BarrierAndStatus { mt: false }, 100_000, 3_000_000), part(c13_barrier::BarrierAndStatus { mt: true }, 480, 16_000)],
+        "C14" => vec![part(codecs::DecodersNoPanic, 1_000_000, 20_000_000), part(ndl::NdlNoPanic, 100_000, 3_000_000), part(c14_frames::MalformedFrames, 60_000, 2_000_000)],
+        "C19" => vec![part(ndl::NdlRoundTrip, 40_000, 2_000_000), part(ndl::NdlRun, 10_000, 150_000)],
+        "C15" => vec![part(c15_ipgen::IpGenHistories, 300_000, 6_000_000), part(c15_dhcp::DhcpLeases, 60_000, 2_000_000)],
+        "C18" => vec![part(codecs::Codecs, 400_000, 8_000_000), part(codecs::CorruptionRejected, 400_000, 8_000_000), part(c18_wire::WireChecksums, 20_000, 600_000)],
+        "C20" => vec![part(c20_dns::DnsResolution, 200_000, 6_000_000)],
         _ => return None,
     })
 }
